@@ -7,7 +7,7 @@ elab "#audit_props " ns:ident : command => do
   let nsName := ns.getId
   let mut rows : Array String := #[]
   for (n, ci) in env.constants.toList do
-    if nsName.isPrefixOf n && !n.isInternal then
+    if n.getPrefix == nsName && !n.isInternal then
       match ci with
       | .thmInfo _ =>
         let axs ← liftCoreM (collectAxioms n)
